@@ -271,13 +271,16 @@ def main(mod, tier, seed, replay=None):
         if pr_cc:
             print(f"CHECKER-UNSOUND property={prop}: builtin model disagrees with CPython: {pr_cc[:3]}")
             return 3
-    battery = run_battery(mod, tier, seed)
+    battery_last = bool(os.environ.get("PYVC_BATTERY_LAST"))   # retry mode of ./check after the process died: proof pass first
+    battery = None if battery_last else run_battery(mod, tier, seed)
     try:
         results, info, undecided = verify(mod, tier, seed, fast=bool(battery and battery.get("failures") and any(not any(k.get("status") == "known" and k.get("kind") == "native" and k["match"] in f.get("key", "") for k in known) for f in battery["failures"])))
     except Exception:
         traceback.print_exc()
         print(f"CHECKER-CRASH property={prop}")
         return 3
+    if battery_last:
+        battery = run_battery(mod, tier, seed)
     undecided_msgs.extend(undecided)
     # clause coverage
     names = {r["id"] for r in results}
